@@ -2,7 +2,8 @@
    from the reader's own header, in the store model of model/Header.v (C13).
    Footprints, well-formedness, the copy is fresh and reads the same, and a
    frame property for every mutation of either header. *)
-From MafVerif Require Import lib.Base lib.Str model.Header.
+From MafVerif Require Import lib.Base lib.Str model.Validation model.Header spec.SpecHeader
+  proofs.HeaderSpec.
 Import Store.
 Local Open Scope nat_scope.
 
@@ -535,3 +536,177 @@ Proof.
   destruct v as [s|o [l|]|l]; simpl; try tauto; intros l' <-;
     (destruct (hget hp l) as [[|items]|]; try discriminate; eauto).
 Qed.
+
+(* ---------- the heap from_lines builds is well-formed ---------- *)
+(* the inner match of alloc_header *)
+Definition alloc_val (hp : heap) (v : hvalue) (shared : option ref) : heap * svalue * option ref :=
+  match v with
+  | HText s => (hp, SText s, shared)
+  | HContigs cs =>
+      match shared with
+      | Some l => (hp, SContigs l, shared)
+      | None => let '(hp', l) := alloc hp (CList cs) in (hp', SContigs l, Some l)
+      end
+  | HOrder o [] => (hp, SOrder o None, shared)
+  | HOrder o cs =>
+      match shared with
+      | Some l => (hp, SOrder o (Some l), shared)
+      | None => let '(hp', l) := alloc hp (CList cs) in (hp', SOrder o (Some l), Some l)
+      end
+  end.
+
+Lemma alloc_header_cons hp k r rest shared :
+  alloc_header hp ((k, r) :: rest) shared =
+  let '(hp1, sv, shared') := alloc_val hp (hval r) shared in
+  let '(hp2, rf) := alloc hp1 (CRec (hkey r) sv) in
+  let '(hp3, sh) := alloc_header hp2 rest shared' in
+  (hp3, (k, rf) :: sh).
+Proof. reflexivity. Qed.
+
+(* all list-valued records of the header hold the same contig list cs0 *)
+Definition one_list (cs0 : list str) (v : hvalue) : Prop :=
+  match v with
+  | HText _ => True
+  | HContigs cs => cs = cs0
+  | HOrder _ [] => True
+  | HOrder _ cs => cs = cs0
+  end.
+Definition shared_ok (hp : heap) (shared : option ref) (cs0 : list str) : Prop :=
+  match shared with None => True | Some l => hget hp l = Some (CList cs0) end.
+
+Lemma alloc_val_spec hp v shared cs0 hp1 sv shared' :
+  shared_ok hp shared cs0 -> one_list cs0 v ->
+  alloc_val hp v shared = (hp1, sv, shared') ->
+  exists ext1, hp1 = hp ++ ext1 /\ shared_ok hp1 shared' cs0 /\
+    (forall l, mentions sv l -> hget hp1 l = Some (CList cs0)) /\
+    (forall hp2, (forall l, mentions sv l -> hget hp2 l = hget hp1 l) -> value_at hp2 sv = v).
+Proof.
+  intros So Ol.
+  assert (Fresh : forall cs, cs = cs0 ->
+            hget (hp ++ [CList cs]) (length hp) = Some (CList cs0))
+    by (intros cs ->; apply hget_app_new).
+  destruct v as [s|o cs|cs]; cbn [alloc_val].
+  - intros H. injection H as <- <- <-. exists []. rewrite app_nil_r.
+    split; [reflexivity|]. split; [assumption|]. split; [intros l []|]. reflexivity.
+  - destruct cs as [|c cs].
+    + intros H. injection H as <- <- <-. exists []. rewrite app_nil_r.
+      split; [reflexivity|]. split; [assumption|]. split; [intros l []|]. reflexivity.
+    + simpl in Ol. destruct shared as [l|]; cbn [alloc].
+      * intros H. injection H as <- <- <-. exists []. rewrite app_nil_r. simpl in So.
+        split; [reflexivity|]. split; [assumption|]. split.
+        -- intros l' Hl. simpl in Hl. now subst l'.
+        -- intros hp2 H2. cbn [value_at]. unfold list_at. now rewrite (H2 l eq_refl), So, Ol.
+      * intros H. injection H as <- <- <-. exists [CList (c :: cs)].
+        split; [reflexivity|]. split; [now apply Fresh|]. split.
+        -- intros l' Hl. simpl in Hl. subst l'. now apply Fresh.
+        -- intros hp2 H2. cbn [value_at]. unfold list_at.
+           now rewrite (H2 _ eq_refl), (Fresh _ Ol), Ol.
+  - simpl in Ol. destruct shared as [l|]; cbn [alloc].
+    + intros H. injection H as <- <- <-. exists []. rewrite app_nil_r. simpl in So.
+      split; [reflexivity|]. split; [assumption|]. split.
+      * intros l' Hl. simpl in Hl. now subst l'.
+      * intros hp2 H2. cbn [value_at]. unfold list_at. now rewrite (H2 l eq_refl), So, Ol.
+    + intros H. injection H as <- <- <-. exists [CList cs].
+      split; [reflexivity|]. split; [now apply Fresh|]. split.
+      * intros l' Hl. simpl in Hl. subst l'. now apply Fresh.
+      * intros hp2 H2. cbn [value_at]. unfold list_at.
+        now rewrite (H2 _ eq_refl), (Fresh _ Ol), Ol.
+Qed.
+
+Lemma alloc_header_spec cs0 recs : forall hp shared hp' sh,
+  shared_ok hp shared cs0 ->
+  (forall k r, In (k, r) recs -> one_list cs0 (hval r)) ->
+  alloc_header hp recs shared = (hp', sh) ->
+  (exists ext, hp' = hp ++ ext) /\ wf hp' sh /\ view hp' sh = recs.
+Proof.
+  induction recs as [|[k r] rest IH]; intros hp shared hp' sh So Ol.
+  - cbn [alloc_header]. intros H. injection H as <- <-.
+    split; [exists []; now rewrite app_nil_r|]. split; [intros ? ? []|reflexivity].
+  - rewrite alloc_header_cons.
+    destruct (alloc_val hp (hval r) shared) as [[hp1 sv] shared'] eqn:Ev.
+    destruct (alloc_val_spec _ _ _ cs0 _ _ _ So (Ol k r (or_introl eq_refl)) Ev)
+      as [ext1 [-> [So1 [Hm Hval]]]].
+    cbn [alloc].
+    destruct (alloc_header ((hp ++ ext1) ++ [CRec (hkey r) sv]) rest shared') as [hp3 sh3] eqn:Ea.
+    intros H. injection H as <- <-.
+    assert (So2 : shared_ok ((hp ++ ext1) ++ [CRec (hkey r) sv]) shared' cs0).
+    { destruct shared' as [l|]; [|exact I]. simpl in *.
+      rewrite hget_app_l; [assumption|]. eapply hget_lt; eauto. }
+    destruct (IH _ _ _ _ So2 (fun k' r' Hin => Ol k' r' (or_intror Hin)) Ea) as [[ext3 ->] [W3 V3]].
+    set (hp1 := hp ++ ext1) in *.
+    assert (Hrf : hget ((hp1 ++ [CRec (hkey r) sv]) ++ ext3) (length hp1) = Some (CRec (hkey r) sv)).
+    { rewrite hget_app_l by (rewrite app_length; cbn; lia). apply hget_app_new. }
+    assert (Hl3 : forall l, mentions sv l ->
+              hget ((hp1 ++ [CRec (hkey r) sv]) ++ ext3) l = hget hp1 l).
+    { intros l Hl. rewrite <- app_assoc. apply hget_app_l. eapply hget_lt. apply (Hm l Hl). }
+    split; [|split].
+    + exists (ext1 ++ [CRec (hkey r) sv] ++ ext3). unfold hp1. now rewrite <- !app_assoc.
+    + intros k2 r2 [H|H]; [|now apply (W3 k2 r2)]. injection H as <- <-.
+      exists (hkey r), sv. split; [assumption|]. intros l Hl. exists cs0.
+      rewrite (Hl3 l Hl). now apply Hm.
+    + cbn [view map fst snd]. rewrite Hrf. fold (view ((hp1 ++ [CRec (hkey r) sv]) ++ ext3) sh3).
+      rewrite V3, (Hval _ Hl3). now destruct r.
+Qed.
+
+(* a header whose list-valued records agree, allocated on any heap, is
+   well-formed and reads back as itself *)
+Theorem alloc_header_wf cs0 recs hp hp' sh :
+  (forall k r, In (k, r) recs -> one_list cs0 (hval r)) ->
+  alloc_header hp recs None = (hp', sh) ->
+  wf hp' sh /\ view hp' sh = recs.
+Proof.
+  intros Ol H. destruct (alloc_header_spec cs0 recs hp None hp' sh I Ol H) as [_ R]. exact R.
+Qed.
+
+(* every header from_lines returns satisfies that: its only list-valued
+   records are the contigs record and, possibly, the coordinate sort order
+   holding the same list *)
+Lemma final_one_list K :
+  NoDup (map kept_key K) ->
+  let cs0 := match kept_value SP_CONTIGS K with Some c => split COMMA c | None => [] end in
+  forall k r, In (k, r) (map (final_rec K) K) -> one_list cs0 (hval r).
+Proof.
+  intros ND cs0 k r Hin. apply in_map_iff in Hin as [[[p k'] v] [E Hin]].
+  unfold final_rec, kept_key, kept_val in E. cbn [fst snd] in E. injection E as <- <-.
+  cbn [hval]. rewrite interpret_eq.
+  destruct (str_eqb k' K_CONTIGS) eqn:Ec.
+  - apply str_eqb_eq in Ec. subst k'. cbn [value_of one_list]. unfold cs0.
+    change SP_CONTIGS with K_CONTIGS. now rewrite (in_kept_value _ _ _ _ ND Hin).
+  - destruct (str_eqb k' K_SORT); [|exact I].
+    cbn [value_of]. destruct (so_of_name v) as [o|]; [|exact I].
+    unfold order_contigs, cs0.
+    destruct (existsb (str_eqb v) SP_COORD_NAMES); [|exact I].
+    destruct (kept_value SP_CONTIGS K) as [c|]; [|exact I].
+    cbn [one_list]. now destruct (split COMMA c).
+Qed.
+
+Section Parsed.
+  Context {C : Type} (registry : list (scheme C)).
+
+  Theorem parsed_header_allocates lines m lg l h hp hp' sh :
+    header_from_lines registry lines m lg = (l, Ok h) ->
+    alloc_header hp (hrecs h) None = (hp', sh) ->
+    wf hp' sh /\ view hp' sh = hrecs h.
+  Proof.
+    intros H Ha. apply (from_lines_ok_recs registry) in H.
+    eapply alloc_header_wf; [|exact Ha]. rewrite H.
+    apply final_one_list. apply expected_keys_nodup.
+  Qed.
+
+  (* C13, last clause: parse a header, build its objects, derive a header from
+     it by deepcopy; then no history of mutations of the derived header changes
+     what the source reads as (namely the parsed header), and vice versa *)
+  Theorem parsed_derived_independent lines m lg l h hp hp0 src hp1 cp :
+    header_from_lines registry lines m lg = (l, Ok h) ->
+    alloc_header hp (hrecs h) None = (hp0, src) ->
+    deepcopy hp0 [] src = (hp1, cp) ->
+    view hp1 cp = hrecs h /\
+    (forall ms hp2 cp', apply_muts hp1 cp ms = (hp2, cp') -> view hp2 src = hrecs h) /\
+    (forall ms hp2 src', apply_muts hp1 src ms = (hp2, src') -> view hp2 cp = hrecs h).
+  Proof.
+    intros H Ha Hd. destruct (parsed_header_allocates _ _ _ _ _ _ _ _ H Ha) as [W V].
+    destruct (deepcopy_spec _ _ _ _ W Hd) as [_ [Vc _]].
+    destruct (derived_header_independent _ _ _ _ W Hd) as [I1 I2].
+    rewrite V in *. split; [assumption|]. split; assumption.
+  Qed.
+End Parsed.
